@@ -8,21 +8,22 @@
    All statements hold for ALL contents and ALL offsets 0 <= o <= |c|. *)
 From Coq Require Import ZArith List Bool Lia.
 From SK Require Import Model.Base Model.Seek Model.SinceSeek Spec.Lines
-     Proofs.Seek Proofs.SeekSpec Proofs.SinceSeek Gen.Params Gen.Exprs.
+     Proofs.Seek Proofs.SeekSpec Proofs.SeekLegacy Proofs.SinceSeek Gen.Params
+     Gen.Exprs.
 Import ListNotations.
 Open Scope Z_scope.
 
 (* ---- the two scans -------------------------------------------------- *)
 (* forwards: the least line feed >= o if it is nearer than A*H bytes;
-   end-of-file if there is none and |c| - o <= (A-1)*H; otherwise the
-   exception (scan_fwd spells this out on next_lf) *)
+   end-of-file if there is none and |c| - o < A*H; otherwise the exception
+   (scan_fwd spells this out on next_lf) *)
 Theorem C11_find_token_spec : forall H A c o,
   0 < H -> 0 < A -> 0 <= o <= lenZ c ->
   find_token H A c o = scan_fwd H A c o.
 Proof. exact find_token_spec. Qed.
 
 (* backwards: the greatest line feed < o if o - q <= A*H; start-of-file if
-   there is none and o <= (A-1)*H; otherwise the exception *)
+   there is none and o < A*H; otherwise the exception *)
 Theorem C11_find_token_reverse_spec : forall H A c o,
   0 < H -> 0 < A -> 0 <= o <= lenZ c ->
   find_token_reverse H A c o = scan_bwd H A c o.
@@ -89,44 +90,57 @@ Theorem C11_try_find_line_error_iff : forall H A c o,
   (try_find_line H A c o None None = LineErr <-> within_budget H A c o = false).
 Proof. exact try_find_line_error_iff. Qed.
 
-(* in terms of the length of the line (terminator included):
-   any line up to (A-1)*H bytes, and any line with a line feed on both
-   sides up to A*H bytes, is looked up exactly from each of its offsets *)
+(* in terms of the length of the line (terminator included, if any):
+   every line of at most A*H - 1 bytes, wherever it lies, and every line of
+   at most A*H bytes that ends with a line feed, is looked up exactly from
+   each of its offsets ... *)
 Theorem C11_short_line_within_budget : forall H A c o,
   0 < H -> 0 < A -> 0 <= o <= lenZ c ->
-  line_len c o <= (A - 1) * H -> within_budget H A c o = true.
+  line_len c o <= A * H - 1 -> within_budget H A c o = true.
 Proof. exact short_line_within_budget. Qed.
 
-Theorem C11_interior_line_within_budget : forall H A c o q p,
+Theorem C11_terminated_line_within_budget : forall H A c o p,
   0 < H -> 0 < A -> 0 <= o <= lenZ c ->
-  prev_lf c o = Some q -> next_lf c o = Some p ->
-  p - q <= A * H -> within_budget H A c o = true.
-Proof. exact interior_line_within_budget. Qed.
+  next_lf c o = Some p ->
+  line_len c o <= A * H -> within_budget H A c o = true.
+Proof. exact terminated_line_within_budget. Qed.
 
-(* The statement "every line of at most A*H bytes is looked up exactly" is
-   FALSE of the code: for a first line (no line feed before it) offsets
-   beyond (A-1)*H raise, and for an unterminated last line offsets more than
-   (A-1)*H before the end raise, although the line may be shorter than A*H.
-   (find_token_reverse tests `attempts <= 0` before `read_offset == 0`;
-   find_token needs one more attempt for the empty read.) *)
-Theorem C11_first_line_gap : forall H A c o,
+(* ... and these bounds are exact: a longer line cannot be looked up from
+   its first or its last byte *)
+Theorem C11_long_terminated_line_raises : forall H A c o p,
   0 < H -> 0 < A -> 0 <= o <= lenZ c ->
-  prev_lf c o = None -> (A - 1) * H < o ->
-  try_find_line H A c o None None = LineErr.
-Proof. exact first_line_gap. Qed.
+  next_lf c o = Some p -> A * H < line_len c o ->
+  try_find_line H A c (line_start c o) None None = LineErr \/
+  try_find_line H A c p None None = LineErr.
+Proof. exact long_terminated_line_raises. Qed.
 
-Theorem C11_last_line_gap : forall H A c o,
+Theorem C11_long_unterminated_line_raises : forall H A c o,
   0 < H -> 0 < A -> 0 <= o <= lenZ c ->
-  next_lf c o = None -> (A - 1) * H < lenZ c - o ->
-  try_find_line H A c o None None = LineErr.
-Proof. exact last_line_gap. Qed.
+  next_lf c o = None -> A * H <= line_len c o ->
+  try_find_line H A c (line_start c o) None None = LineErr.
+Proof. exact long_unterminated_line_raises. Qed.
 
-Theorem C11_try_find_line_exact_AH_refuted : forall H A c,
-  0 < H -> 0 < A -> (forall j, ~ lf_at c j) ->
-  (A - 1) * H < lenZ c <= A * H ->
-  line_len c (lenZ c) <= A * H /\
-  try_find_line H A c (lenZ c) None None = LineErr.
-Proof. exact try_find_line_exact_AH_refuted. Qed.
+(* ---- regression corpus: the loops before commit 19d446e ------------------
+   (Model/Seek.v legacy_find_token, legacy_find_token_reverse).  A first
+   line (no line feed before it) looked up beyond (A-1)*H, or an
+   unterminated last line looked up more than (A-1)*H before the end of the
+   file, raised although the line was shorter than A*H; the current model
+   returns the line. *)
+Theorem C11_legacy_first_line_refuted : forall H A c o,
+  0 < H -> 0 < A -> 0 <= o <= lenZ c ->
+  prev_lf c o = None -> (A - 1) * H < o < A * H ->
+  fwd_in_budget H A c o = true ->
+  legacy_try_find_line H A c o = None /\
+  try_find_line H A c o None None = Line (ReachedEof 0) (exact_elf c o).
+Proof. exact legacy_first_line_refuted. Qed.
+
+Theorem C11_legacy_last_line_refuted : forall H A c o,
+  0 < H -> 0 < A -> 0 <= o <= lenZ c ->
+  next_lf c o = None -> (A - 1) * H < lenZ c - o < A * H ->
+  bwd_in_budget H A c o = true ->
+  legacy_try_find_line H A c o = None /\
+  try_find_line H A c o None None = Line (exact_slf c o) (ReachedEof (lenZ c)).
+Proof. exact legacy_last_line_refuted. Qed.
 
 (* ---- where a since constraint leaves the file ---------------------------
    Model/SinceSeek.v [apply_to_file] (binary seek + outcome -> position).
@@ -155,6 +169,7 @@ Theorem C11_constants :
   0 < MAX_DATETIME_READ_BYTES /\
   MAX_SEEK_HORIZON_EXPAND * SEEK_HORIZON = 1048576 /\
   MAX_SEARCHABLE_LINE_LENGTH = 1048576 /\
+  MAX_SEEK_HORIZON_EXPAND * SEEK_HORIZON - 1 = 1048575 /\
   (MAX_SEEK_HORIZON_EXPAND - 1) * SEEK_HORIZON = 1048320.
 Proof. vm_compute. repeat split; reflexivity. Qed.
 
@@ -176,41 +191,56 @@ Proof.
   exists slf, elf. repeat split; try assumption. apply H6.
 Qed.
 
-(* every line of at most 1 048 320 bytes (1 MiB minus one horizon) ... *)
+(* every line shorter than 1 MiB (at most 1 048 575 bytes, terminator
+   included if any) ... *)
 Theorem C11_real_short_line : forall c o,
-  0 <= o <= lenZ c -> line_len c o <= 1048320 ->
+  0 <= o <= lenZ c -> line_len c o <= 1048575 ->
   within_budget SEEK_HORIZON MAX_SEEK_HORIZON_EXPAND c o = true.
 Proof.
   intros c o Ho Hl. apply short_line_within_budget;
     [vm_compute; reflexivity|vm_compute; reflexivity|exact Ho|].
-  replace ((MAX_SEEK_HORIZON_EXPAND - 1) * SEEK_HORIZON) with 1048320
+  replace (MAX_SEEK_HORIZON_EXPAND * SEEK_HORIZON - 1) with 1048575
     by (vm_compute; reflexivity). exact Hl.
 Qed.
 
-(* ... and every line of at most 1 MiB between two line feeds *)
-Theorem C11_real_interior_line : forall c o q p,
-  0 <= o <= lenZ c -> prev_lf c o = Some q -> next_lf c o = Some p ->
-  p - q <= 1048576 ->
+(* ... and every line of at most 1 MiB including its terminating line feed *)
+Theorem C11_real_terminated_line : forall c o p,
+  0 <= o <= lenZ c -> next_lf c o = Some p -> line_len c o <= 1048576 ->
   within_budget SEEK_HORIZON MAX_SEEK_HORIZON_EXPAND c o = true.
 Proof.
-  intros c o q p Ho Ep En Hl.
-  apply (interior_line_within_budget _ _ c o q p);
-    [vm_compute; reflexivity|vm_compute; reflexivity|exact Ho|exact Ep|
-     exact En|].
+  intros c o p Ho En Hl.
+  apply (terminated_line_within_budget _ _ c o p);
+    [vm_compute; reflexivity|vm_compute; reflexivity|exact Ho|exact En|].
   replace (MAX_SEEK_HORIZON_EXPAND * SEEK_HORIZON) with 1048576
     by (vm_compute; reflexivity). exact Hl.
 Qed.
 
-(* the gap, with the real constants: a first line longer than 1 048 320
-   bytes cannot be looked up from its offsets beyond 1 048 320 *)
-Theorem C11_real_first_line_gap : forall c o,
-  0 <= o <= lenZ c -> prev_lf c o = None -> 1048320 < o ->
-  try_find_line SEEK_HORIZON MAX_SEEK_HORIZON_EXPAND c o None None = LineErr.
+(* the two inputs on which the old code failed, with the real constants:
+   a first line looked up at an offset in (1 048 320, 1 048 576) - e.g.
+   b'x'*1048476 + b'\nyy\n' at offset 1048475 - and an unterminated last
+   line with between 1 048 320 and 1 048 576 bytes left - e.g.
+   b'yy\n' + b'x'*1048476 at offset 3 *)
+Theorem C11_real_legacy_first_line_refuted : forall c o,
+  0 <= o <= lenZ c -> prev_lf c o = None -> 1048320 < o < 1048576 ->
+  fwd_in_budget SEEK_HORIZON MAX_SEEK_HORIZON_EXPAND c o = true ->
+  legacy_try_find_line SEEK_HORIZON MAX_SEEK_HORIZON_EXPAND c o = None /\
+  try_find_line SEEK_HORIZON MAX_SEEK_HORIZON_EXPAND c o None None
+    = Line (ReachedEof 0) (exact_elf c o).
 Proof.
-  intros c o Ho Ep Hg. apply first_line_gap;
-    [vm_compute; reflexivity|vm_compute; reflexivity|exact Ho|exact Ep|].
-  replace ((MAX_SEEK_HORIZON_EXPAND - 1) * SEEK_HORIZON) with 1048320
-    by (vm_compute; reflexivity). exact Hg.
+  intros c o Ho Ep Hg Hf. apply legacy_first_line_refuted;
+    try (vm_compute; reflexivity); assumption.
+Qed.
+
+Theorem C11_real_legacy_last_line_refuted : forall c o,
+  0 <= o <= lenZ c -> next_lf c o = None ->
+  1048320 < lenZ c - o < 1048576 ->
+  bwd_in_budget SEEK_HORIZON MAX_SEEK_HORIZON_EXPAND c o = true ->
+  legacy_try_find_line SEEK_HORIZON MAX_SEEK_HORIZON_EXPAND c o = None /\
+  try_find_line SEEK_HORIZON MAX_SEEK_HORIZON_EXPAND c o None None
+    = Line (exact_slf c o) (ReachedEof (lenZ c)).
+Proof.
+  intros c o Ho En Hg Hb. apply legacy_last_line_refuted;
+    try (vm_compute; reflexivity); assumption.
 Qed.
 
 (* LogLine.start_offset / end_offset of the model are the bodies translated
@@ -242,20 +272,31 @@ Example C11_example_lines :
   try_find_line 4 3 ex_c 14 None None = Line (Found 12) (ReachedEof 14).
 Proof. vm_compute. repeat split; reflexivity. Qed.
 
-(* the budget boundary on a tiny file: H = 2, A = 2, "abc" has one line of
-   3 <= A*H bytes; offsets 0..2 are fine, offset 3 raises *)
-Example C11_example_gap :
-  line_len [97; 98; 99] 3 = 3 /\
-  map (fun o => jv_line (try_find_line 2 2 [97; 98; 99] o None None)) [2; 3]
-  = [jv_line (Line (ReachedEof 0) (ReachedEof 3)); jv_line LineErr].
-Proof. vm_compute. split; reflexivity. Qed.
+(* the budget boundary on tiny files, H = 2, A = 2 (A*H = 4): "abc" is
+   looked up from every offset (the old loops raised at offset 3, and at
+   offset 0 too); "abcd" (A*H bytes, no terminator) raises at both ends;
+   "abc\n" (A*H bytes with its terminator) is fine *)
+Example C11_example_boundary :
+  map (fun o => jv_line (try_find_line 2 2 [97; 98; 99] o None None)) [0; 1; 2; 3]
+  = repeat (jv_line (Line (ReachedEof 0) (ReachedEof 3))) 4 /\
+  map (legacy_try_find_line 2 2 [97; 98; 99]) [0; 1; 2; 3]
+  = [None; Some (ReachedEof 0, ReachedEof 3);
+     Some (ReachedEof 0, ReachedEof 3); None] /\
+  map (fun o => jv_line (try_find_line 2 2 [97; 98; 99; 100] o None None)) [0; 2; 4]
+  = [jv_line LineErr; jv_line (Line (ReachedEof 0) (ReachedEof 4)); jv_line LineErr] /\
+  map (fun o => jv_line (try_find_line 2 2 [97; 98; 99; 10] o None None)) [0; 3; 4]
+  = [jv_line (Line (ReachedEof 0) (Found 3)); jv_line (Line (ReachedEof 0) (Found 3));
+     jv_line (Line (Found 3) (ReachedEof 4))].
+Proof. vm_compute. repeat split; reflexivity. Qed.
 
 Print Assumptions C11_find_token_spec.
 Print Assumptions C11_find_token_reverse_spec.
 Print Assumptions C11_try_find_line_spec.
 Print Assumptions C11_try_find_line_exact.
 Print Assumptions C11_try_find_line_error_iff.
-Print Assumptions C11_try_find_line_exact_AH_refuted.
+Print Assumptions C11_long_terminated_line_raises.
+Print Assumptions C11_legacy_first_line_refuted.
+Print Assumptions C11_real_legacy_first_line_refuted.
 Print Assumptions C11_real_lookup_exact.
 Print Assumptions C11_position_is_line_boundary.
 Print Assumptions C11_real_position_is_line_boundary.
